@@ -26,6 +26,10 @@ structure PResult where
   tokHigh : Nat
   dropped : Bool
   deadBranch : Bool
+  /-- input the parser never consumed: the current token and everything not yet lexed -/
+  leftover : Str
+  /-- ignored tokens / error fragments queued but not attached to the tree -/
+  pendingText : Str
   deriving Inhabited
 
 def fuelFor (src : Str) : Nat := 4 * src.length + 20
@@ -34,24 +38,51 @@ inductive Entry where
   | document | selectionSet | type
   deriving Repr, DecidableEq
 
+def errUnlessEnd (k : Option Kind) : PI Unit := if k == none || k == some .eof then pure () else err
+
+/-- `Parser::expect_end_of_input`: the standalone entry points report any token left over -/
+def expectEndOfInput : PI Unit := skipIgnored >>= fun _ => peek >>= fun k => errUnlessEnd k
+
 def Entry.grammar (e : Entry) (fuel : Nat) : PI Unit :=
   match e with
   | .document => Parse.document fuel
-  | .selectionSet => fieldSet fuel
-  | .type => ty fuel
+  | .selectionSet => fieldSet fuel >>= fun _ => expectEndOfInput
+  | .type => ty fuel >>= fun _ => expectEndOfInput
 
-def runEntry (m : PI Unit) (s0 : PState) : PResult :=
-  match m.run s0 with
+/-- `SyntaxTreeBuilder::finish_standalone`: close the temporary root; if it holds exactly one node of
+    an expected kind, that node is the tree, otherwise the temporary root stays (single root always). -/
+def finishStandalone (b : Builder) (expected : List SK) : Option Elem :=
+  match b.finishNode with
+  | none => none
+  | some b' =>
+    match b'.finish with
+    | some (.node k [.node k' cs']) => if k' ∈ expected then some (.node k' cs') else some (.node k [.node k' cs'])
+    | other => other
+
+/-- which temporary root the entry point opens (`start_standalone`), and the kinds it unwraps -/
+def Entry.standalone : Entry → Option (SK × List SK)
+  | .document => none
+  | .selectionSet => some ("SELECTION_SET", ["SELECTION_SET"])
+  | .type => some ("NAMED_TYPE", ["NAMED_TYPE", "LIST_TYPE", "NON_NULL_TYPE"])
+
+def runEntry (e : Entry) (fuel : Nat) (s0 : PState) : PResult :=
+  let s0 := match e.standalone with
+    | some (k, _) => { s0 with builder := s0.builder.startNode k }
+    | none => s0
+  match (e.grammar fuel).run s0 with
   | .ok _ s =>
-    { outcome := match s.builder.finish with
+    { outcome := match (match e.standalone with
+                        | some (_, expected) => finishStandalone s.builder expected
+                        | none => s.builder.finish) with
         | some root => .tree root
         | none => .panic "GreenNodeBuilder::finish: not exactly one root node",
-      errors := s.errors, recHigh := s.recHigh, tokHigh := s.lx.high, dropped := s.dropped, deadBranch := s.deadBranch }
-  | .abort w => { outcome := .abort w, errors := [], recHigh := 0, tokHigh := 0, dropped := false, deadBranch := false }
-  | .panic msg => { outcome := .panic msg, errors := [], recHigh := 0, tokHigh := 0, dropped := false, deadBranch := false }
+      errors := s.errors, recHigh := s.recHigh, tokHigh := s.lx.high, dropped := s.dropped, deadBranch := s.deadBranch,
+      leftover := curText s.current ++ s.lx.src, pendingText := pendingText s.pending }
+  | .abort w => { outcome := .abort w, errors := [], recHigh := 0, tokHigh := 0, dropped := false, deadBranch := false, leftover := [], pendingText := [] }
+  | .panic msg => { outcome := .panic msg, errors := [], recHigh := 0, tokHigh := 0, dropped := false, deadBranch := false, leftover := [], pendingText := [] }
 
 def parse (e : Entry) (tokenLimit : Option Nat) (recLimit : Nat) (src : Str) : PResult :=
-  runEntry (e.grammar (fuelFor src)) (initState src tokenLimit recLimit)
+  runEntry e (fuelFor src) (initState src tokenLimit recLimit)
 
 /-- `DEFAULT_RECURSION_LIMIT` (parser/mod.rs) — checked against the source by the translator -/
 def defaultRecursionLimit : Nat := 500
